@@ -1,5 +1,6 @@
 // C05 — assignment through views is deep, writes exactly the viewed elements in logical order, touches nothing else.
 #define VK_MAIN
+#include <cmath>
 #include "../kit/operands.hpp"
 #include <boost/multi/array_ref.hpp>
 using namespace vk;
@@ -133,6 +134,30 @@ static void aliased_swap_probe(Case& c) {
 	for(L q = 0; q < n * n; ++q) if(!(S.data_elements()[q] == model[std::size_t(q)])) { violation(K + VN[var] + ":wrong-value", "after swapping two views of one array, flat element " + std::to_string(q) + " differs from the element-wise swap"); break; }
 }
 
+// Assignment copies VALUES even when destination and source already compare equal under the element type's operator== (records compared by key only, +0.0 / -0.0):
+// "sets precisely the viewed elements to the corresponding source values" is about the values, and an equality shortcut is only sound for identity.
+struct KeyRec { int key; int payload; friend bool operator==(KeyRec const& a, KeyRec const& b) { return a.key == b.key; } friend bool operator!=(KeyRec const& a, KeyRec const& b) { return a.key != b.key; } };
+static void equal_but_distinct_probe(Case& c) {
+	Rng& g = c.rng; L const r = g.in(2, 4), q = g.in(2, 4); int const form = int(g.below(8)); static char const* FN[] = {"named-row=const-row", "named-row=row", "temporary-row=const-row", "whole()=whole()", "named-block=const-transposed-block", "elements()=elements()", "named-row=array1d", "array_ref=array_ref"};
+	describe(std::string(" + equal-but-distinct ") + FN[form]); op("assign(equal-but-distinct)"); count(std::string("equal-but-distinct:") + FN[form]); std::string const K = std::string("C05:assign(equal-but-distinct):") + FN[form] + ":";
+	multi::array<KeyRec, 2> A({r, q}), B({r, q}); for(L i = 0; i < r; ++i) for(L j = 0; j < q; ++j) { A[i][j] = KeyRec{int(i * 10 + j), 100}; B[i][j] = KeyRec{int(i * 10 + j), 200}; }
+	multi::array<double, 2> P({r, q}, +0.0), N({r, q}, -0.0); L const i0 = g.below(r); std::vector<char> want(std::size_t(r * q), 0);  // want[k] = 1: element k of A / P must hold the source value afterwards
+	auto row = [&](L i) { for(L j = 0; j < q; ++j) want[std::size_t(i * q + j)] = 1; }; auto all = [&] { std::fill(want.begin(), want.end(), 1); };
+	switch(form) {
+	case 0: { auto&& d = A[i0]; auto const& s2 = std::as_const(B)[i0]; d = s2; auto&& dp = P[i0]; auto const& sp = std::as_const(N)[i0]; dp = sp; row(i0); break; }
+	case 1: { auto&& d = A[i0]; d = B[i0]; auto&& dp = P[i0]; dp = N[i0]; row(i0); break; }
+	case 2: { A[i0] = std::as_const(B)[i0]; P[i0] = std::as_const(N)[i0]; row(i0); break; }
+	case 3: { A() = B(); P() = N(); all(); break; }
+	case 4: { multi::array<KeyRec, 2> Bt({q, r}); multi::array<double, 2> Nt({q, r}, -0.0); for(L i = 0; i < r; ++i) for(L j = 0; j < q; ++j) Bt[j][i] = B[i][j]; auto&& d = A(); auto const& s2 = std::as_const(Bt).transposed(); d = s2; auto&& dp = P(); auto const& sp = std::as_const(Nt).transposed(); dp = sp; all(); break; }
+	case 5: { A.elements() = B.elements(); P.elements() = N.elements(); all(); break; }
+	case 6: { multi::array<KeyRec, 1> b1(multi::extensions_t<1>{q}); multi::array<double, 1> n1(multi::extensions_t<1>{q}, -0.0); for(L j = 0; j < q; ++j) b1[j] = B[i0][j]; auto&& d = A[i0]; d = b1; auto&& dp = P[i0]; dp = n1; row(i0); break; }
+	default: { multi::array_ref<KeyRec, 2> RA(A.extensions(), A.data_elements()), RB(B.extensions(), B.data_elements()); RA = std::as_const(RB); multi::array_ref<double, 2> RP(P.extensions(), P.data_elements()), RN(N.extensions(), N.data_elements()); RP = std::as_const(RN); all(); break; }
+	}
+	for(L k = 0; k < r * q; ++k) { int const wp = want[std::size_t(k)] ? 200 : 100; bool const ws = want[std::size_t(k)] != 0;
+		if(A.data_elements()[k].payload != wp) { violation(K + "payload", std::string("element ") + std::to_string(k) + " holds payload " + std::to_string(A.data_elements()[k].payload) + " after the assignment (records compare equal by key; the source payload is 200, untouched elements keep 100)"); break; }
+		if(std::signbit(P.data_elements()[k]) != ws) { violation(K + "signed-zero", std::string("element ") + std::to_string(k) + (ws ? " was not set to the source's -0.0" : " outside the destination was changed")); break; } }
+}
+
 int main(int argc, char** argv) {
 	// only operations that keep a mutable view type on the pinned tree, and no const value category
 	cfg.kind_mask = (1UL << K_INDEX) | (1UL << K_SLICED) | (1UL << K_STRIDED) | (1UL << K_DROPPED) | (1UL << K_TAKED) | (1UL << K_ROTATED) | (1UL << K_UNROTATED) | (1UL << K_TRANSPOSED) | (1UL << K_DIAGONAL) | (1UL << K_PARTITIONED) | (1UL << K_FLATTED) | (1UL << K_CALL) | (1UL << K_PAREN);
@@ -147,5 +172,6 @@ int main(int argc, char** argv) {
 		switch(p.root.size()) { case 1: one<1>(c, p); break; case 2: one<2>(c, p); break; case 3: one<3>(c, p); break; default: one<4>(c, p); break; }
 #endif
 		if(c.k % 6 == 0 && st().case_viol == 0) aliased_swap_probe(c);
+		if(c.k % 6 == 3 && st().case_viol == 0) equal_but_distinct_probe(c);
 	});
 }
